@@ -253,6 +253,7 @@ impl<'r> G<'r> {
             FailKind::BadHandle,
             FailKind::DivZeroNestedArgs,
             FailKind::DivZeroBuiltInArgs,
+            FailKind::DivZeroSubCallArg,
         ];
         if self.f.fail_mid_expression && !self.avoid.fail_mid_expression {
             kinds.push(FailKind::DivZeroMid);
